@@ -808,17 +808,11 @@ func ruleC13Parser(p *Program, r *Run) {
 	rc := FuncObj(pkg, fd)
 	for _, user := range []string{"parser.takeOperator", "parser.topOperator"} {
 		ufd := p.MustFunc(pkg, user)
-		uses := false
-		ast.Inspect(ufd.Body, func(n ast.Node) bool {
-			if as, ok := n.(*ast.AssignStmt); ok && len(as.Rhs) == 1 {
-				if call, ok := as.Rhs[0].(*ast.CallExpr); ok && Callee(info, call) == rc {
-					if f := selField(info, as.Lhs[0]); f != nil && f.Name() == "RowCount" {
-						uses = true
-					}
-				}
-			}
-			return true
-		})
+		// every value stored into RowCount is the (first) result of rowCount() - followed through temporaries
+		pc := &provClient{p: p, source: rc, field: "RowCount"}
+		ue := NewEngine(p, pkg, ufd, pc)
+		ue.Run(nil)
+		uses := pc.stores > 0 && pc.bad == 0 && len(ue.Errs) == 0
 		r.Check(uses, "C13/rowcount", FuncName(pkg, ufd)+" RowCount comes from rowCount()", p.Pos(ufd.Pos()), "row count parsed by the validating production", "RowCount is not parsed through rowCount(): the integer-literal check is bypassed")
 	}
 
@@ -924,4 +918,85 @@ func ruleC13Parser(p *Program, r *Run) {
 		r.Check(ok, "C13/joinkind", key, p.Pos(flavorAssign.Pos()), why, why+": an unknown join kind would be accepted by the parser")
 	}
 	r.Floor("C13/joinkind", 1)
+}
+
+// provClient: every value stored into a given field is the first result of a given function (the result is tagged
+// where the call returns; the tag travels with the value through temporaries and helpers).
+type provClient struct {
+	BaseClient
+	InlinePure
+	p      *Program
+	source *types.Func
+	field  string
+	stores int
+	bad    int
+}
+
+func (c *provClient) PostCall(e *Engine, st *State, call *ast.CallExpr, callee *types.Func) *State {
+	if callee != c.source {
+		return nil
+	}
+	ids := e.CallResults(call)
+	if len(ids) == 0 {
+		return nil
+	}
+	k := e.CanonSt(st, ids[0])
+	if !k.OK {
+		return nil
+	}
+	if n := e.update(st.killObj(e.Info.Defs[ids[0]]), k, func(f *Fact) { f.Tags = []string{"from:" + c.source.Name()} }); n != nil {
+		return n
+	}
+	return nil
+}
+
+func (c *provClient) tagged(e *Engine, st *State, x ast.Expr) bool {
+	if call, ok := ast.Unparen(x).(*ast.CallExpr); ok && Callee(e.Info, call) == c.source {
+		return true
+	}
+	if f := e.FactOf(st, x); f != nil {
+		return hasStr(f.Tags, "from:"+c.source.Name())
+	}
+	return false
+}
+
+func (c *provClient) PreAssign(e *Engine, st *State, lhs, rhs []ast.Expr, _ ast.Stmt) *State {
+	if !e.Reporting() {
+		return nil
+	}
+	for i, l := range lhs {
+		f := selField(e.Info, l)
+		if f == nil || f.Name() != c.field {
+			continue
+		}
+		c.stores++
+		ok := false
+		switch {
+		case len(rhs) == len(lhs):
+			ok = c.tagged(e, st, rhs[i])
+		case len(rhs) == 1 && i == 0:
+			// op.RowCount, err = p.rowCount()
+			if call, isCall := ast.Unparen(rhs[0]).(*ast.CallExpr); isCall && Callee(e.Info, call) == c.source {
+				ok = true
+			}
+		}
+		if !ok {
+			c.bad++
+		}
+	}
+	return nil
+}
+
+func (c *provClient) Visit(e *Engine, st *State, n ast.Node) *State {
+	cl, ok := n.(*ast.CompositeLit)
+	if !ok || !e.Reporting() {
+		return nil
+	}
+	if v := litField(e.Info, cl, c.field); v != nil && StructOf(e.Info.TypeOf(cl)) != nil {
+		c.stores++
+		if !c.tagged(e, st, v) {
+			c.bad++
+		}
+	}
+	return nil
 }
